@@ -25,7 +25,7 @@ func init() {
 		RequiredCounters: []string{"law_checks", "alias_checks", "identity_class_scalar_muls"},
 		Assumptions:      []string{"the reference group law is validated by r*G=O, the published generator doublings, CRS digest and proof vectors, and by agreement of its affine and extended formulas"},
 		Plan: func(tier string) []Child {
-			return shardsVar(pick(tier, 12, 16), Child{Flavour: "plain", NCPU: 1})
+			return plus386(shardsVar(pick(tier, 12, 16), Child{Flavour: "plain", NCPU: 1}), 2)
 		},
 		Run: runC08,
 	})
